@@ -23,7 +23,7 @@ STREAMS["versions"] = {
 }
 
 _BUILDER_ASSUME = [
-    "modelled, not verified: caller callbacks (fetcher, registry client, dependency finders) as total functions of a scripted world; the prepared content of a package is an abstract identity standing for the dirhash-derived directory name (SHA-256 collision freedom is not claimed; only equality patterns are compared); sync.Mutex as atomicity of each Add call; encoding/json and the manifest file are outside the model",
+    "modelled, not verified: caller callbacks (fetcher, registry client, dependency finders) as total functions of a scripted world; the prepared content of a package is an abstract identity standing for the dirhash-derived directory name (SHA-256 collision freedom is not claimed; only equality patterns are compared); sync.Mutex as atomicity of each Add call; of the manifest, the package section is modelled (Bundle/ManifestRT.v write_packages, compared with every manifest the real Close writes in the reopen stream: the model of writeManifest applied to what the model's OpenDir reads must reproduce the section, order included); its registry section, encoding/json and the file are outside the model",
     "version selection uses go-versions as restated in Bundle/Versions.v (validated by the versions stream)",
 ]
 
@@ -42,8 +42,8 @@ _ADDR_ASSUME = [
 ]
 STREAMS["manifest"] = {
     "name": "manifest", "corr": "Corr.RunManifest",
-    "selftest": {"good": 'Case (s2l "/bundle") (mkManifest 1 [mkMPackage (s2l "git::https://example.com/r.git") (s2l "d") [] []] []) true (Some (mkOpened [(s2l "git::https://example.com/r.git", s2l "/bundle/d", [], [])] [])) [QReverse (s2l "/bundle/d/x") (Some (s2l "git::https://example.com/r.git", s2l "x"))]',
-                 "bad": 'Case (s2l "/bundle") (mkManifest 1 [mkMPackage (s2l "git::https://example.com/r.git") (s2l "d") [] []] []) true (Some (mkOpened [(s2l "git::https://example.com/r.git", s2l "/bundle/d", [], [])] [])) [QReverse (s2l "/bundle/e/x") (Some (s2l "git::https://example.com/r.git", s2l "x"))]'},
+    "selftest": {"good": 'Case (s2l "/bundle") (mkManifest 1 [mkMPackage (s2l "git::https://example.com/r.git") (s2l "d") [] []] []) true true (Some (mkOpened [(s2l "git::https://example.com/r.git", s2l "/bundle/d", [], [])] [])) [QReverse (s2l "/bundle/d/x") (Some (s2l "git::https://example.com/r.git", s2l "x"))]',
+                 "bad": 'Case (s2l "/bundle") (mkManifest 1 [mkMPackage (s2l "git::https://example.com/r.git") (s2l "d") [] []] []) true true (Some (mkOpened [(s2l "git::https://example.com/r.git", s2l "/bundle/d", [], [])] [])) [QReverse (s2l "/bundle/e/x") (Some (s2l "git::https://example.com/r.git", s2l "x"))]'},
 }
 STREAMS["reopen"] = {"name": "reopen", "corr": "Corr.RunManifest"}
 STREAMS["prepare"] = {
@@ -125,7 +125,7 @@ PROPS = {
     },
     "C13": {
         "streams": ["bundle"],
-        "theorems": "C13_order_independent (same analysed set and directory identities for any two Add sequences with the same item set), C13_coalesce_iff_equal_content; partial on schedules: operations are atomic in the model (mutex granularity)",
+        "theorems": "C13_order_independent (same analysed set and directory identities for any two Add sequences with the same item set), C13_coalesce_iff_equal_content, C13_manifest_packages_order_independent (the package section of the manifest is the same list whatever order the builder's map is visited in); partial on schedules: operations are atomic in the model (mutex granularity)",
         "assumptions": _BUILDER_ASSUME + ["partial: Go-memory-model data races below mutex granularity (e.g. the unlocked targetDir test at the top of each Add) cannot be exhibited by the sequential model; manifest bytes / checksum equality across all permutations is checked on the implementation"],
     },
     "C14": {
@@ -158,7 +158,7 @@ PROPS = {
     },
     "C09": {
         "streams": ["reopen", "manifest", "pack", "unpack"],
-        "theorems": "C09_reopen_is_a_function_of_the_manifest, C09_root_independent (accessors of open_dir do not depend on the root; forward lookups are the root followed by the same relative components; reverse lookups of corresponding paths agree), C09_reverse_choice_is_deterministic, C09_reverse_lookup_visiting_order_irrelevant (the reverse lookup walks a Go map in no fixed order: its choice is the minimum of a strict total order on printed addresses, so every visiting order gives the same answer; Bundle/BestKey.v), C09_version_visiting_order_irrelevant (the versions object of a registry entry is decoded into a Go map and visited in no fixed order: every permutation of its members gives the same map of source addresses and deprecation notes, or is refused alike); the archive leg composes C02 (pack/unpack round trip: PARTIAL there) with these",
+        "theorems": "C09_what_close_writes_open_reads (Bundle/ManifestRT.v: for every directory table that is a map whose package addresses print to text that parses back to them (C06) and whose directory names are plain ASCII names, and every metadata table, the document writeManifest writes - one record per package, sorted by printed address - is accepted by OpenDir and the opened bundle knows exactly the builder's packages, directories and metadata, an entry that carries nothing coming back as none; also for the records in any other order; C09_close_open_instance), C09_reopen_is_a_function_of_the_manifest, C09_root_independent (accessors of open_dir do not depend on the root; forward lookups are the root followed by the same relative components; reverse lookups of corresponding paths agree), C09_reverse_choice_is_deterministic, C09_reverse_lookup_visiting_order_irrelevant (the reverse lookup walks a Go map in no fixed order: its choice is the minimum of a strict total order on printed addresses, so every visiting order gives the same answer; Bundle/BestKey.v), C09_version_visiting_order_irrelevant (the versions object of a registry entry is decoded into a Go map and visited in no fixed order: every permutation of its members gives the same map of source addresses and deprecation notes, or is refused alike); the archive leg composes C02 (pack/unpack round trip: PARTIAL there) with these",
         "assumptions": _ADDR_ASSUME + _PACK_ASSUME + ["modelled, not verified: encoding/json (MarshalIndent / Unmarshal of the manifest), crypto/sha256 (checksum compared on the implementation only), dirhash; partial: 'the same files after WriteArchive + ExtractArchive' rests on C02's round trip, which is proved piecewise and decided per run by packing, extracting and comparing the trees of real bundles; file times are compared to the archive's one-second resolution"],
     },
     "C10": {
